@@ -50,7 +50,11 @@ type c09BSite struct {
 	Fn, Expr, Base, Kind string
 	Lo, Hi               c09BTerm
 	Guards               []c09BGuard
-	Pos                  string
+	// Carried: the variables of the bounds (and the operand) that an ENCLOSING LOOP assigns, with how: inc (only `v++` /
+	// `v += k`), dec (only `v--` / `v -= k`), other - the index is loop-carried: what was known about it before the loop
+	// says nothing about a later iteration (but for the side a monotone variable cannot move to)
+	Carried [][2]string
+	Pos     string
 }
 
 func (a c09BAtom) lean() string {
@@ -106,6 +110,9 @@ type c09BScan struct {
 	mapVar   map[string]bool // package-level variables of map type
 	locals   []map[string]ast.Expr
 	alias    map[string]ast.Expr // locals defined once as a qualified constant / integer literal and never assigned again
+	pkgConst map[string]int64    // package-level integer constants of the package (`const maxLen = 1024`)
+	loops    []map[string]string // enclosing loops of the current function (innermost last): assigned variable -> inc | dec | other
+	probe    map[string]*c09Probe
 	sites    []c09BSite
 	maps     [][2]string
 }
@@ -217,6 +224,11 @@ func (sc *c09BScan) term(e ast.Expr) c09BTerm {
 	case *ast.Ident:
 		if a, ok := sc.alias[v.Name]; ok {
 			return sc.term(a)
+		}
+		if _, local := sc.localType(v.Name); !local {
+			if n, ok := sc.pkgConst[v.Name]; ok {
+				return c09BTerm{Off: n}
+			}
 		}
 		return c09BTerm{Atom: c09BAtom{"var", v.Name}}
 	case *ast.SelectorExpr:
@@ -482,6 +494,201 @@ func terminates(b *ast.BlockStmt) bool {
 	return false
 }
 
+// ---- loops ----
+
+// c09Probe: is `v >= c` an invariant of the loop under inspection?  It holds on entry; every decrement of v inside
+// the loop must be dominated by a fact `v >= c + k` (k the step).  Checked in a dry run over the loop.
+type c09Probe struct {
+	c  int64
+	ok bool
+}
+
+// stepOf: `v++`, `v--`, `v += k`, `v -= k` (k a positive integer literal) on a plain identifier: (v, signed step)
+func stepOf(st ast.Node) (string, int64, bool) {
+	switch v := st.(type) {
+	case *ast.IncDecStmt:
+		if id, ok := v.X.(*ast.Ident); ok {
+			if v.Tok == token.INC {
+				return id.Name, 1, true
+			}
+			return id.Name, -1, true
+		}
+	case *ast.AssignStmt:
+		if (v.Tok == token.ADD_ASSIGN || v.Tok == token.SUB_ASSIGN) && len(v.Lhs) == 1 && len(v.Rhs) == 1 {
+			if id, ok := v.Lhs[0].(*ast.Ident); ok {
+				if k, ok := intLit(v.Rhs[0]); ok && k > 0 {
+					if v.Tok == token.SUB_ASSIGN {
+						k = -k
+					}
+					return id.Name, k, true
+				}
+			}
+		}
+	}
+	return "", 0, false
+}
+
+// assignDirs: every variable the nodes assign, with the direction it can move: inc | dec | other
+func assignDirs(nodes ...ast.Node) map[string]string {
+	out := map[string]string{}
+	note := func(r, d string) {
+		if r == "" {
+			return
+		}
+		if old, ok := out[r]; ok && old != d {
+			d = "other"
+		}
+		out[r] = d
+	}
+	for _, n := range nodes {
+		ast.Inspect(n, func(m ast.Node) bool {
+			switch v := m.(type) {
+			case *ast.FuncLit:
+				for r := range assignedIn(v) {
+					note(r, "other")
+				}
+				return false
+			case *ast.IncDecStmt, *ast.AssignStmt:
+				if name, k, ok := stepOf(v); ok {
+					if k > 0 {
+						note(name, "inc")
+					} else {
+						note(name, "dec")
+					}
+					return true
+				}
+				for r := range assignedIn(v) {
+					note(r, "other")
+				}
+			case *ast.RangeStmt:
+				for _, e := range []ast.Expr{v.Key, v.Value} {
+					if e != nil {
+						note(rootIdent(e), "other")
+					}
+				}
+			case *ast.UnaryExpr:
+				if v.Op == token.AND {
+					note(rootIdent(v.X), "other")
+				}
+			case *ast.ValueSpec:
+				for _, nm := range v.Names {
+					note(nm.Name, "other")
+				}
+			}
+			return true
+		})
+	}
+	return out
+}
+
+func hasRoot(a c09BAtom, set map[string]string) bool {
+	for _, r := range a.roots() {
+		if _, ok := set[r]; ok {
+			return true
+		}
+	}
+	return false
+}
+
+// weaken: what survives of the facts known before a loop at every later point in and after it.  A fact about
+// variables the loop does not assign survives unchanged.  A fact `v OP t` (t not assigned) about a variable that only
+// moves DOWN keeps its upper-bound half (`v < t`; `v = t` becomes `v < t+1`), about one that only moves UP its
+// lower-bound half; likewise `x OP v+k` with v on the right.  Everything else is dropped.
+func weaken(facts []c09BGuard, dirs map[string]string) []c09BGuard {
+	if len(dirs) == 0 {
+		return facts
+	}
+	word := map[string]string{"inc": "up", "dec": "down"}
+	var out []c09BGuard
+	for _, f := range facts {
+		lhsHit, rhsHit := hasRoot(f.Lhs, dirs), hasRoot(f.Rhs.Atom, dirs)
+		switch {
+		case !lhsHit && !rhsHit:
+			out = append(out, f)
+		case lhsHit && !rhsHit && f.Lhs.Kind == "var":
+			d := dirs[f.Lhs.Name]
+			g := f
+			g.Src = "(loop-carried: " + f.Lhs.Name + " only moves " + word[d] + ") " + f.Src
+			switch {
+			case d == "dec" && f.Op == "lt":
+				out = append(out, g)
+			case d == "dec" && f.Op == "eq":
+				g.Op = "lt"
+				g.Rhs.Off++
+				out = append(out, g)
+			case d == "inc" && f.Op == "ge":
+				out = append(out, g)
+			case d == "inc" && f.Op == "eq":
+				g.Op = "ge"
+				out = append(out, g)
+			}
+		case !lhsHit && rhsHit && f.Rhs.Atom.Kind == "var":
+			d := dirs[f.Rhs.Atom.Name]
+			g := f
+			g.Src = "(loop-carried: " + f.Rhs.Atom.Name + " only moves " + word[d] + ") " + f.Src
+			switch {
+			case d == "dec" && (f.Op == "ge" || f.Op == "eq"):
+				g.Op = "ge"
+				out = append(out, g)
+			case d == "inc" && f.Op == "lt":
+				out = append(out, g)
+			case d == "inc" && f.Op == "eq":
+				g.Op = "lt"
+				g.Rhs.Off++
+				out = append(out, g)
+			}
+		}
+	}
+	return out
+}
+
+// constLower: the best constant lower bound the facts give for variable v
+func constLower(facts []c09BGuard, v string) (int64, bool) {
+	best, ok := int64(0), false
+	for _, f := range facts {
+		if f.Lhs.Kind == "var" && f.Lhs.Name == v && f.Rhs.Atom.Kind == "" && (f.Op == "ge" || f.Op == "eq") {
+			if !ok || f.Rhs.Off > best {
+				best, ok = f.Rhs.Off, true
+			}
+		}
+	}
+	return best, ok
+}
+
+// loopInvariants: for every variable the loop only moves DOWN and that is known to be >= 0 before it: is `v >= 0`
+// preserved, i.e. is every decrement inside the loop dominated by `v >= step`?  (dry run; sites found in it are discarded)
+func (sc *c09BScan) loopInvariants(entry []c09BGuard, dirs map[string]string, walk func([]c09BGuard)) []c09BGuard {
+	var cands []string
+	for name, d := range dirs {
+		if d != "dec" {
+			continue
+		}
+		if c, ok := constLower(entry, name); ok && c >= 0 {
+			cands = append(cands, name)
+		}
+	}
+	if len(cands) == 0 || sc.probe != nil {
+		return nil
+	}
+	sort.Strings(cands)
+	sc.probe = map[string]*c09Probe{}
+	for _, name := range cands {
+		sc.probe[name] = &c09Probe{c: 0, ok: true}
+	}
+	nSites, nMaps := len(sc.sites), len(sc.maps)
+	walk(weaken(entry, dirs))
+	sc.sites, sc.maps = sc.sites[:nSites], sc.maps[:nMaps]
+	var out []c09BGuard
+	for _, name := range cands {
+		if sc.probe[name].ok {
+			out = append(out, c09BGuard{Op: "ge", Lhs: c09BAtom{"var", name}, Rhs: c09BTerm{},
+				Src: "(loop invariant: " + name + " >= 0 before the loop, every decrement inside it under " + name + " >= its step)"})
+		}
+	}
+	sc.probe = nil
+	return out
+}
+
 // ---- declarations that carry a length ----
 
 func (sc *c09BScan) declFacts(name string, rhs ast.Expr, typ ast.Expr) []c09BGuard {
@@ -573,7 +780,32 @@ func (sc *c09BScan) site(e ast.Expr, facts []c09BGuard) {
 			s.Hi = sc.term(v.High)
 		}
 		if v.Max != nil {
-			s.Hi = c09BTerm{Atom: c09BAtom{"opaque", render(sc.g.fset, e)}}
+			// x[lo:hi:max] needs 0 <= lo <= hi <= max <= cap(x); recorded as TWO sites, lo <= hi <= len(x) and
+			// hi <= max <= len(x) (len(x) <= cap(x): sufficient, not necessary)
+			s2 := s
+			s2.Expr += " (max)"
+			s2.Lo, s2.Hi = s.Hi, sc.term(v.Max)
+			sc.finishSite(s2, facts)
+		}
+	}
+	sc.finishSite(s, facts)
+}
+
+func (sc *c09BScan) finishSite(s c09BSite, facts []c09BGuard) {
+	// loop-carried quantities of this access
+	seen := map[string]bool{}
+	for _, a := range []c09BAtom{s.Lo.Atom, s.Hi.Atom, {"len", s.Base}} {
+		for _, r := range a.roots() {
+			if seen[r] {
+				continue
+			}
+			for i := len(sc.loops) - 1; i >= 0; i-- {
+				if d, ok := sc.loops[i][r]; ok {
+					seen[r] = true
+					s.Carried = append(s.Carried, [2]string{r, d})
+					break
+				}
+			}
 		}
 	}
 	// keep the facts that can matter: about the operand's length or about a quantity of the bounds
@@ -685,6 +917,21 @@ func (sc *c09BScan) declare(st ast.Stmt) []c09BGuard {
 						sc.noteLocal(id.Name, initType(v.Rhs[i]))
 					}
 					out = append(out, sc.declFacts(id.Name, v.Rhs[i], nil)...)
+					// `v := term` / `v = term`: the variable has the value of the term (until one of them is assigned)
+					if v.Tok == token.DEFINE || v.Tok == token.ASSIGN {
+						if _, isAlias := sc.alias[id.Name]; !isAlias && id.Name != "_" {
+							t := sc.term(v.Rhs[i])
+							self := false
+							for _, r := range t.Atom.roots() {
+								if r == id.Name {
+									self = true
+								}
+							}
+							if t.Atom.Kind != "opaque" && !self {
+								out = append(out, c09BGuard{Op: "eq", Lhs: c09BAtom{"var", id.Name}, Rhs: t, Src: render(sc.g.fset, st)})
+							}
+						}
+					}
 				}
 			}
 		} else if v.Tok == token.DEFINE {
@@ -761,25 +1008,43 @@ func (sc *c09BScan) stmt(st ast.Stmt, facts []c09BGuard) []c09BGuard {
 		if v.Init != nil {
 			inner = sc.stmt(v.Init, inner)
 		}
-		loopAssigned := assignedIn(v.Body)
-		for k := range assignedIn(v.Post) {
-			loopAssigned[k] = true
-		}
-		// what was known before the loop survives only if the loop never assigns it
-		inner = kill(inner, loopAssigned)
-		sc.expr(v.Cond, inner)
-		bodyFacts := append([]c09BGuard{}, inner...)
-		bodyAssigned := assignedIn(v.Body)
+		var loopNodes []ast.Node
 		if v.Cond != nil {
-			bodyFacts = append(bodyFacts, sc.condFacts(v.Cond, true)...)
+			loopNodes = append(loopNodes, v.Cond)
 		}
-		bodyFacts = append(bodyFacts, sc.loopFacts(v, bodyAssigned)...)
-		sc.block(v.Body.List, bodyFacts)
+		loopNodes = append(loopNodes, v.Body)
 		if v.Post != nil {
-			sc.stmt(v.Post, bodyFacts)
+			loopNodes = append(loopNodes, v.Post)
 		}
+		dirs := assignDirs(loopNodes...)
+		bodyAssigned := assignedIn(v.Body)
+		walk := func(entry []c09BGuard) {
+			sc.loops = append(sc.loops, dirs)
+			sc.expr(v.Cond, entry)
+			bodyFacts := append([]c09BGuard{}, entry...)
+			if v.Cond != nil {
+				bodyFacts = append(bodyFacts, sc.condFacts(v.Cond, true)...)
+			}
+			bodyFacts = append(bodyFacts, sc.loopFacts(v, bodyAssigned)...)
+			sc.block(v.Body.List, bodyFacts)
+			if v.Post != nil {
+				sc.stmt(v.Post, bodyFacts)
+			}
+			sc.loops = sc.loops[:len(sc.loops)-1]
+		}
+		// what was known before the loop survives only as far as the loop cannot move it (see weaken); plus `v >= 0` for
+		// a variable that only moves down under a guard
+		inv := sc.loopInvariants(inner, dirs, walk)
+		walk(append(weaken(inner, dirs), inv...))
 		sc.locals = sc.locals[:len(sc.locals)-1]
-		return kill(facts, assignedIn(v))
+		initAssigned := assignedIn(v.Init)
+		after := weaken(kill(facts, initAssigned), dirs)
+		for _, g := range inv {
+			if !initAssigned[g.Lhs.Name] {
+				after = append(after, g)
+			}
+		}
+		return after
 	case *ast.RangeStmt:
 		sc.expr(v.X, facts)
 		sc.locals = append(sc.locals, map[string]ast.Expr{})
@@ -801,7 +1066,15 @@ func (sc *c09BScan) stmt(st ast.Stmt, facts []c09BGuard) []c09BGuard {
 					c09BGuard{Op: "ge", Lhs: c09BAtom{"var", key.Name}, Rhs: c09BTerm{}, Src: src})
 			}
 		}
+		rdirs := assignDirs(v.Body)
+		for _, e := range []ast.Expr{v.Key, v.Value} {
+			if id, ok := e.(*ast.Ident); ok && id.Name != "_" {
+				rdirs[id.Name] = "other" // bound anew in every iteration
+			}
+		}
+		sc.loops = append(sc.loops, rdirs)
 		sc.block(v.Body.List, inner)
+		sc.loops = sc.loops[:len(sc.loops)-1]
 		sc.locals = sc.locals[:len(sc.locals)-1]
 		return kill(facts, assignedIn(v))
 	case *ast.SwitchStmt:
@@ -869,6 +1142,15 @@ func (sc *c09BScan) stmt(st ast.Stmt, facts []c09BGuard) []c09BGuard {
 		// a simple statement: its expressions see the current facts; then its assignments drop facts and its
 		// declarations add some
 		sc.expr(st, facts)
+		if sc.probe != nil {
+			if name, k, ok := stepOf(st); ok && k < 0 {
+				if p := sc.probe[name]; p != nil {
+					if c, has := constLower(facts, name); !has || c < p.c-k {
+						p.ok = false
+					}
+				}
+			}
+		}
 		out := kill(facts, assignedIn(st))
 		return append(out, sc.declare(st)...)
 	}
@@ -911,7 +1193,9 @@ func (sc *c09BScan) funcBody(ft *ast.FuncType, body *ast.BlockStmt, recv *ast.Fi
 	if body == nil {
 		return
 	}
-	saved := sc.locals
+	saved, savedLoops, savedProbe := sc.locals, sc.loops, sc.probe
+	sc.loops, sc.probe = nil, nil
+	defer func() { sc.loops, sc.probe = savedLoops, savedProbe }()
 	sc.locals = append(sc.locals, map[string]ast.Expr{})
 	var facts []c09BGuard
 	for _, fl := range []*ast.FieldList{recv, ft.Params, ft.Results} {
@@ -999,8 +1283,10 @@ func constAliases(fd *ast.FuncDecl) map[string]ast.Expr {
 }
 
 // c09BoundSites scans the library packages
-func c09BoundSites(g *genCtx) (sites []c09BSite, skipped []string, maps [][2]string) {
+func c09BoundSites(g *genCtx) (sites []c09BSite, skipped []string, maps [][2]string, consts []int64, calls [][2]string) {
 	generic := map[string]bool{}
+	lengthConsts := map[int64]bool{}
+	allCalls := map[[2]string]bool{}
 	for _, dir := range c09Dirs {
 		for _, rel := range c09GoFiles(dir) {
 			f := g.file(rel)
@@ -1025,7 +1311,7 @@ func c09BoundSites(g *genCtx) (sites []c09BSite, skipped []string, maps [][2]str
 	}
 	for _, dir := range c09Dirs {
 		files := c09GoFiles(dir)
-		sc := &c09BScan{g: g, generic: generic, typeName: map[string]bool{}, mapType: map[string]bool{}, mapField: map[string]int{}, mapVar: map[string]bool{}}
+		sc := &c09BScan{g: g, generic: generic, typeName: map[string]bool{}, mapType: map[string]bool{}, mapField: map[string]int{}, mapVar: map[string]bool{}, pkgConst: map[string]int64{}}
 		// package-level declarations first
 		for _, rel := range files {
 			f := g.file(rel)
@@ -1041,6 +1327,15 @@ func c09BoundSites(g *genCtx) (sites []c09BSite, skipped []string, maps [][2]str
 					switch v := sp.(type) {
 					case *ast.TypeSpec:
 						sc.typeName[v.Name.Name] = true
+					case *ast.ValueSpec:
+						if gd.Tok == token.CONST && len(v.Names) == len(v.Values) {
+							for i, nm := range v.Names {
+								if n, ok := intLit(v.Values[i]); ok {
+									sc.pkgConst[nm.Name] = n
+									lengthConsts[n] = true
+								}
+							}
+						}
 					}
 				}
 			}
@@ -1107,6 +1402,55 @@ func c09BoundSites(g *genCtx) (sites []c09BSite, skipped []string, maps [][2]str
 				continue
 			}
 			sc.rel = rel
+			// import names of the library's own packages: alias -> package directory name
+			libImport := map[string]string{}
+			for _, im := range f.Imports {
+				path, _ := strconv.Unquote(im.Path.Value)
+				if i := strings.Index(path, "/pkg/"); i >= 0 {
+					short := path[strings.LastIndex(path, "/")+1:]
+					name := short
+					if im.Name != nil {
+						name = im.Name.Name
+					}
+					libImport[name] = short
+				}
+			}
+			// integer literals a length is compared with, and the static calls of every function
+			ast.Inspect(f, func(n ast.Node) bool {
+				if be, ok := n.(*ast.BinaryExpr); ok {
+					switch be.Op {
+					case token.LSS, token.LEQ, token.GTR, token.GEQ, token.EQL, token.NEQ:
+						for _, pr := range [][2]ast.Expr{{be.X, be.Y}, {be.Y, be.X}} {
+							if strings.Contains(render(g.fset, pr[0]), "len(") {
+								if k, ok := intLit(pr[1]); ok {
+									lengthConsts[k] = true
+								}
+							}
+						}
+					}
+				}
+				return true
+			})
+			for _, d := range f.Decls {
+				if fd, ok := d.(*ast.FuncDecl); ok && fd.Body != nil {
+					caller := shortPkg(rel) + "." + declName(fd)
+					ast.Inspect(fd.Body, func(n ast.Node) bool {
+						if c, ok := n.(*ast.CallExpr); ok {
+							switch fun := c.Fun.(type) {
+							case *ast.Ident:
+								allCalls[[2]string{caller, shortPkg(rel) + "." + fun.Name}] = true
+							case *ast.SelectorExpr:
+								if x, ok := fun.X.(*ast.Ident); ok {
+									if short, ok := libImport[x.Name]; ok {
+										allCalls[[2]string{caller, short + "." + fun.Sel.Name}] = true
+									}
+								}
+							}
+						}
+						return true
+					})
+				}
+			}
 			for _, d := range f.Decls {
 				switch v := d.(type) {
 				case *ast.FuncDecl:
@@ -1161,25 +1505,72 @@ func c09BoundSites(g *genCtx) (sites []c09BSite, skipped []string, maps [][2]str
 		maps = append(maps, sc.maps...)
 	}
 	sort.Strings(skipped)
+	// the constants the sites and their facts mention
+	for _, s := range sites {
+		for _, t := range []c09BTerm{s.Lo, s.Hi} {
+			lengthConsts[t.Off], lengthConsts[-t.Off] = true, true
+		}
+		for _, gd := range s.Guards {
+			lengthConsts[gd.Rhs.Off], lengthConsts[-gd.Rhs.Off] = true, true
+		}
+	}
+	for k := range lengthConsts {
+		if k >= 2 && k <= 1<<20 {
+			consts = append(consts, k)
+		}
+	}
+	sort.Slice(consts, func(i, j int) bool { return consts[i] < consts[j] })
+	// the static call edges that lead to a function with a slice / index expression (backward closure)
+	want := map[string]bool{}
+	for _, s := range sites {
+		want[s.Fn] = true
+	}
+	for changed := true; changed; {
+		changed = false
+		for e := range allCalls {
+			if want[e[1]] && !want[e[0]] {
+				want[e[0]] = true
+				changed = true
+			}
+		}
+	}
+	for e := range allCalls {
+		if want[e[1]] && e[0] != e[1] {
+			calls = append(calls, e)
+		}
+	}
+	sort.Slice(calls, func(i, j int) bool { return calls[i][0]+" "+calls[i][1] < calls[j][0]+" "+calls[j][1] })
 	return
 }
 
 func c09BoundFacts(g *genCtx) string {
 	var b strings.Builder
-	sites, skipped, maps := c09BoundSites(g)
+	sites, skipped, maps, consts, calls := c09BoundSites(g)
 	var ss []string
 	for _, s := range sites {
 		var gs []string
 		for _, gd := range s.Guards {
 			gs = append(gs, gd.lean())
 		}
-		ss = append(ss, fmt.Sprintf("{ fn := %s, expr := %s, base := %s, kind := %s, lo := %s, hi := %s,\n    guards := [%s] }",
-			leanStr(s.Fn), leanStr(s.Expr), leanStr(s.Base), leanStr(s.Kind), s.Lo.lean(), s.Hi.lean(), strings.Join(gs, ",\n      ")))
+			var cs []string
+		for _, c := range s.Carried {
+			cs = append(cs, "("+leanStr(c[0])+", "+leanStr(c[1])+")")
+		}
+		ss = append(ss, fmt.Sprintf("{ fn := %s, expr := %s, base := %s, kind := %s, lo := %s, hi := %s,\n    guards := [%s],\n    carried := [%s] }",
+			leanStr(s.Fn), leanStr(s.Expr), leanStr(s.Base), leanStr(s.Kind), s.Lo.lean(), s.Hi.lean(), strings.Join(gs, ",\n      "), strings.Join(cs, ", ")))
 	}
 	b.WriteString("/-- slice / index expressions whose operand is not a map, with the length facts that hold on every path reaching them -/\n")
 	b.WriteString("def boundSites : List C09.BoundSite := [\n  " + strings.Join(ss, ",\n  ") + "]\n\n")
 	b.WriteString("/-- files headed `Code generated … DO NOT EDIT.`: not scanned for slice / index expressions -/\n")
 	b.WriteString("def boundsSkippedFiles : List String := " + leanStrList(skipped) + "\n\n")
+	var es []string
+	for _, e := range calls {
+		es = append(es, "("+leanStr(e[0])+", "+leanStr(e[1])+")")
+	}
+	b.WriteString("/-- static calls (caller, callee) among the library's functions that lead to a function with a slice / index expression -/\n")
+	b.WriteString("def boundCalls : List (String × String) := [\n  " + strings.Join(es, ",\n  ") + "]\n\n")
+	g.facts["C09.boundCalls"] = calls
+	g.facts["C09.lengthConsts"] = consts
 	g.facts["C09.boundSites"] = sites
 	g.facts["C09.boundsSkippedFiles"] = skipped
 	g.facts["C09.mapIndexes"] = maps
